@@ -9,16 +9,21 @@ use sfs_core::input::{genotype::{self, Genotype, Skipped}, sample::{Population, 
 // project     : N | shape:a,b | ind:a,b
 // records     : contig~pos~gt,gt,gt ; ...     (gt strings for .cli; codes 0 1 2 m x p for .mem)   corrupt: contig~pos~!kind
 
+pub const CRLF_MARK: &str = "\u{1}crlf";
+const CRLF_NOEND_MARK: &str = "\u{1}crlfnoend";
 pub const FIFO_MARK: &str = "\u{1}fifo";
 pub fn parse_samples(s: &str) -> Option<(bool, Vec<(String, Option<String>)>)> {
     if s == "N" { return None; }
     // `s:` inline list, `S:` samples file, `F:` samples file that is a named pipe (marked by a sentinel item)
-    let file = s.starts_with("S:") || s.starts_with("F:");
+    // `R:` samples file with Windows line endings (every line ends in CR LF), `Q:` the same without line ending after the last line
+    let file = s.starts_with("S:") || s.starts_with("F:") || s.starts_with("R:") || s.starts_with("Q:");
     let body = &s[2..];
     let mut items: Vec<(String, Option<String>)> = if body.is_empty() { vec![] } else {
         body.split(',').map(|it| match it.split_once('=') { Some((k, v)) => (k.to_string(), Some(v.to_string())), None => (it.to_string(), None) }).collect()
     };
     if s.starts_with("F:") { items.push((FIFO_MARK.to_string(), None)); }
+    if s.starts_with("R:") { items.push((CRLF_MARK.to_string(), None)); }
+    if s.starts_with("Q:") { items.push((CRLF_NOEND_MARK.to_string(), None)); }
     Some((file, items))
 }
 
@@ -132,7 +137,7 @@ pub fn container_bytes(cs: &CallSet, container: &str, layout: u64) -> Option<Vec
 fn raw_bcf(cs: &CallSet, text: &[u8]) -> Option<Vec<u8>> {
     let ploidy = |g: &str| g.matches(|c| c == '/' || c == '|').count();
     let uniform = cs.recs.iter().all(|r| r.gts.windows(2).all(|w| ploidy(&w[0]) == ploidy(&w[1])));
-    if (cs.extras || cs.wide % 2 == 1) && uniform { vcf::to_raw_bcf(text).or_else(|| vcf::raw_bcf_simple(cs)) } else { vcf::raw_bcf_simple(cs) }
+    if (cs.extras || cs.wide % 2 == 1) && uniform && cs.wide < 1000 { vcf::to_raw_bcf(text).or_else(|| vcf::raw_bcf_simple(cs)) } else { vcf::raw_bcf_simple(cs) }
 }
 
 fn create_args(samples: &Option<(bool, Vec<(String, Option<String>)>)>, project: &Option<(bool, Vec<usize>)>, strict: bool, precision: Option<usize>, threads: usize,
@@ -142,7 +147,11 @@ fn create_args(samples: &Option<(bool, Vec<(String, Option<String>)>)>, project:
         if *file {
             let path = format!("{work}/tmp/{uniq}.samples");
             let fifo = items.iter().any(|(k, _)| k == FIFO_MARK);
-            let body: String = items.iter().filter(|(k, _)| k != FIFO_MARK).map(|(k, v)| match v { Some(p) => format!("{k}\t{p}\n"), None => format!("{k}\n") }).collect();
+            let crlf = items.iter().any(|(k, _)| k == CRLF_MARK); let crlf_noend = items.iter().any(|(k, _)| k == CRLF_NOEND_MARK);
+            let is_mark = |k: &str| k == FIFO_MARK || k == CRLF_MARK || k == CRLF_NOEND_MARK;
+            let mut body: String = items.iter().filter(|(k, _)| !is_mark(k)).map(|(k, v)| match v { Some(p) => format!("{k}\t{p}\n"), None => format!("{k}\n") }).collect();
+            if crlf || crlf_noend { body = body.replace('\n', "\r\n"); }
+            if crlf_noend && body.ends_with("\r\n") { body.truncate(body.len() - 2); }
             if fifo {
                 // the samples file is a named pipe (as with `-S <(cut -f1,2 meta.tsv)`): not a regular file, readable once
                 let _ = std::fs::remove_file(&path);
